@@ -289,6 +289,11 @@ def run_check(pid, tier, seed, replay=None, keep=False):
             print("INCONCLUSIVE property=%s %s" % (pid, i))
         status = 2
 
+    if not samples:
+        # a monitor that recorded no explicit samples: fall back to class signatures it actually observed
+        for pn, pv in (coverage_extra.get("parts") or {}).items():
+            for k in list(pv.get("class_top", {}))[:4]:
+                samples.append({"part": pn, "case": {"observed_class": k, "times": pv["class_top"][k]}})
     cov = {"evaluations": int(evaluations), "distinct_nontrivial": int(distinct),
            "rule": " || ".join(rules) if rules else spec.get("rule", ""),
            "samples": samples[:12] if samples else [], "exhaustive": bool(exhaustive)}
